@@ -1,7 +1,8 @@
 import RichModel.Lemmas.LayoutTableBody
+import RichModel.Lemmas.LayoutTableRatio
 /-!
-The C07 `Table` behind `tableConsole` (`toTable`): it satisfies the hypotheses of `C07.width_fits` when the
-columns are free to wrap and the cells measure `0 ≤ maximum`; the table with the stored lines (`tb_tbR`) has
+The C07 `Table` behind `tableConsole` (`toTable`): it satisfies the hypotheses of `Dep.width_fits` (and of `width_fits_ratio`,
+its extension to ratio columns) when the columns are free to wrap and the cells measure `0 ≤ maximum`; the table with the stored lines (`tb_tbR`) has
 the same shape, and the shaped rows are what `tb_bodyLine_ok` asks for.
 -/
 namespace RichModel.Layout
@@ -167,6 +168,33 @@ theorem tb_toTable_noRatio (cfg : Cfg) (o : TableOpts) (cols : List ColS)
         subst h
         rfl
 
+/-- Ratio columns are allowed: when the table expands no column has `ratio=0` (a `Column.ratio` is a `Nat` here, so every
+ratio that is set is then at least 1); when it does not expand the ratios are ignored by `_calculate_column_widths`. -/
+theorem tb_toTable_ratiosPos (cfg : Cfg) (o : TableOpts) (cols : List ColS)
+    (hfree : ∀ c ∈ cols, (o.expand || o.width.isSome) = false ∨ c.o.ratio ≠ some 0) :
+    (toTable cfg o cols).expand = false ∨ (toTable cfg o cols).RatiosPos := by
+  cases he : (o.expand || o.width.isSome) with
+  | false => left; rw [tb_toTable_expand, he]
+  | true =>
+    right
+    intro c hc r hr
+    obtain ⟨cs, hcs, pc, _, rfl⟩ := tb_mem_toTable_columns cfg o cols c hc
+    have h := hfree cs hcs
+    rw [he] at h
+    rcases h with h | h
+    · cases h
+    · simp only [toColumn, toColumnC] at hr
+      cases hrr : cs.o.ratio with
+      | none => rw [hrr] at hr; simp at hr
+      | some n =>
+        rw [hrr] at hr h
+        simp only [Option.map_some, Option.some.injEq] at hr
+        subst hr
+        have hn : n ≠ 0 := fun h0 => h (by rw [h0])
+        show (1 : Int) ≤ Int.ofNat n
+        have : (Int.ofNat n) = (n : Int) := rfl
+        omega
+
 theorem tb_toTable_noWrap (cfg : Cfg) (o : TableOpts) (cols : List ColS)
     (hfree : ∀ c ∈ cols, c.o.noWrap = false) : ∀ c ∈ (toTable cfg o cols).columns, c.noWrap = false := by
   intro c hc
@@ -194,7 +222,7 @@ theorem tb_width_skel (o : TableOpts) (columns : List Column) :
 
 /-! ### the boxes of rich/box.py -/
 
-theorem tb_boxOf_wf (cw : Char → Nat) (hcw : cw = C07.cw) (o : TableOpts) (b : RichModel.Box)
+theorem tb_boxOf_wf (cw : Char → Nat) (hcw : cw = cwD) (o : TableOpts) (b : RichModel.Box)
     (h : o.box.bind boxOf = some b) : b.wf cw := by
   subst hcw
   cases hb : o.box with
@@ -207,7 +235,7 @@ theorem tb_boxOf_wf (cw : Char → Nat) (hcw : cw = C07.cw) (o : TableOpts) (b :
     | some e =>
       rw [he] at h
       simp only [Option.bind_some] at h
-      obtain ⟨b', hb', hwf⟩ := C07.boxes_all_wf e (List.mem_of_getElem? he)
+      obtain ⟨b', hb', hwf⟩ := Dep.boxes_all_wf e (List.mem_of_getElem? he)
       rw [hb'] at h
       cases h
       exact hwf
